@@ -467,3 +467,219 @@ Proof.
   - intros k e Hk. cbn [length Nat.add]. apply id_table_get; [|exact Hk]. exact (proj1 (phase1_nodup _ _ _ _ E1)).
 Qed.
 Print Assumptions init_group_gen_spec.
+
+(* ====================================================================== *)
+(* 6. The objects ARE the model's records                                   *)
+(* ====================================================================== *)
+Definition cfg_type (e : GroupConfigTransaction) : string :=
+  match sdict_get (ct_txn_type e) USER_CONFIG_TRANSACTION_TYPES with Ok s => s | Raise _ => "" end.
+Definition cfg_fn (cs : list (string * tcontract)) (o : option GroupConfigFunctionCall) : option nat :=
+  match o with
+  | Some fc => match lookup_fn cs fc with Ok f => Some (fst f) | Raise _ => None end
+  | None => None
+  end.
+Definition zlookup (oid : string) (r : list (string * Z)) : Z :=
+  match find (fun kv => String.eqb (fst kv) oid) r with Some kv => snd kv | None => 0%Z end.
+(* the configured pairs (offset, other id), in listing order *)
+Definition cfg_rel_pairs (e : GroupConfigTransaction) : list (Z * string) :=
+  match ct_relative_indexes e with
+  | None => []
+  | Some r => map (fun oid => (zlookup oid r, oid)) (dict_keys r)
+  end.
+(* the model record of a configuration entry, as the request format of the model gives it (g_rel = the pairs) .. *)
+Definition raw_gtxn (cs : list (string * tcontract)) (e : GroupConfigTransaction) : gtxn :=
+  mkTxn (ct_txn_id e) (cfg_type e) (cfg_has_logic_sig e) (cfg_fn cs (ct_logic_sig e)) (cfg_fn cs (ct_application e))
+        (option_map Z.to_N (ct_absolute_index e)) (cfg_rel_pairs e).
+(* .. and with its relative indexes in the form the model itself reads them (Group.rel_dict: a later pair for the same
+   offset replaces the earlier one in place) *)
+Definition normalize (t : gtxn) : gtxn :=
+  mkTxn (g_id t) (g_type t) (g_has_logic_sig t) (g_logic_sig t) (g_application t) (g_abs t) (rel_dict t).
+Definition cfg_gtxn (cs : list (string * tcontract)) (e : GroupConfigTransaction) : gtxn := normalize (raw_gtxn cs e).
+
+Definition phi (ids : list string) (kv : Z * nat) : Z * string := (fst kv, nth (snd kv) ids "").
+Definition view_with (ids : list string) (o : tobj) : gtxn :=
+  mkTxn (o_transacton_id o) (o_type o) (o_has_logic_sig o) (option_map fst (o_logic_sig o)) (option_map fst (o_application o))
+        (option_map Z.to_N (o_absoulte_index o)) (map (phi ids) (o_relative_indexes o)).
+
+Lemma fold_left_map' {A B C} (f : A -> C -> A) (g : B -> C) l a : fold_left f (map g l) a = fold_left (fun a x => f a (g x)) l a.
+Proof. revert a. induction l as [|x l IH]; intros a; [reflexivity|]. cbn [map fold_left]. apply IH. Qed.
+
+Lemma map_phi_zdict_set ids k j d : map (phi ids) (zdict_set k j d) = Group.dict_set k (nth j ids "") (map (phi ids) d).
+Proof.
+  unfold zdict_set. induction d as [|[k' v'] d IH]; [reflexivity|].
+  cbn [GroupGen.dict_set map Group.dict_set phi fst snd]. rewrite (Z.eqb_sym k k').
+  destruct (Z.eqb k' k) eqn:E.
+  - apply Z.eqb_eq in E. subst k'. reflexivity.
+  - cbn [map phi fst snd]. f_equal. exact IH.
+Qed.
+
+Lemma id_table_nth_gen (ids : list string) k : forall s j,
+  find (fun kv : string * nat => String.eqb (fst kv) k) (combine ids (seq s (length ids))) = Some j ->
+  s <= snd j /\ nth (snd j - s) ids "" = k.
+Proof.
+  induction ids as [|i ids IH]; intros s j H; [discriminate|].
+  cbn [length seq combine find fst] in H. destruct (String.eqb i k) eqn:E.
+  - inversion H; subst j. cbn [snd]. rewrite Nat.sub_diag. apply String.eqb_eq in E. split; [lia | exact E].
+  - destruct (IH (S s) j H) as [Hle Hn]. split; [lia|]. replace (snd j - s) with (S (snd j - S s)) by lia. exact Hn.
+Qed.
+
+Lemma id_table_nth es k j : sdict_get k (id_table es) = Ok j -> nth j (map ct_txn_id es) "" = k.
+Proof.
+  unfold id_table. rewrite sdict_get_find. rewrite <- (map_length ct_txn_id es).
+  destruct (find _ _) as [kv|] eqn:E; [|discriminate]. intros H. inversion H; subst j.
+  destruct (id_table_nth_gen _ _ _ _ E) as [_ Hn]. rewrite Nat.sub_0_r in Hn. exact Hn.
+Qed.
+
+Lemma rel_fold_view es r : forall keys acc rel,
+  foldE (rel_step (id_table es) r) keys acc = Ok rel ->
+  map (phi (map ct_txn_id es)) rel =
+  fold_left (fun d oid => Group.dict_set (zlookup oid r) oid d) keys (map (phi (map ct_txn_id es)) acc).
+Proof.
+  induction keys as [|k keys IH]; intros acc rel H.
+  - inversion H. reflexivity.
+  - cbn [foldE] in H. destruct (rbind_ok_inv _ _ _ H) as (acc' & H1 & H2). cbn [fold_left].
+    rewrite (IH _ _ H2). f_equal. unfold rel_step in H1.
+    destruct (sdict_mem k (id_table es)); [|discriminate].
+    destruct (rbind_ok_inv _ _ _ H1) as (off & Ho & H3). destruct (rbind_ok_inv _ _ _ H3) as (j & Hj & H4).
+    inversion H4. rewrite map_phi_zdict_set. rewrite (id_table_nth _ _ _ Hj).
+    unfold zlookup. rewrite sdict_get_find in Ho. destruct (find _ r) as [kv|]; [|discriminate]. inversion Ho. reflexivity.
+Qed.
+
+Lemma rel_of_view es e rel :
+  rel_of (id_table es) (ct_relative_indexes e) [] = Ok rel ->
+  map (phi (map ct_txn_id es)) rel = rel_dict (raw_gtxn (@nil (string * tcontract)) e).
+Proof.
+  unfold rel_of, rel_dict, raw_gtxn, cfg_rel_pairs. cbn [g_rel]. destruct (ct_relative_indexes e) as [r|].
+  - intros H. rewrite (rel_fold_view es r _ _ _ H). rewrite fold_left_map'. reflexivity.
+  - intros H. inversion H. reflexivity.
+Qed.
+
+Lemma rel_dict_raw cs cs' e : rel_dict (raw_gtxn cs e) = rel_dict (raw_gtxn cs' e).
+Proof. reflexivity. Qed.
+
+Lemma resolve_app_fn cs o app : resolve_app cs o = Ok app -> option_map fst app = cfg_fn cs o.
+Proof.
+  destruct o as [fc|]; cbn [resolve_app cfg_fn]; intros H; [|inversion H; reflexivity].
+  destruct (lookup_fn cs fc) as [f|x]; [|discriminate]. cbn [rbind] in H.
+  destruct (String.eqb (c_contract_type (snd f)) "LogicSig"); [discriminate|]. inversion H. reflexivity.
+Qed.
+
+Lemma resolve_lsig_fn cs o ls : resolve_lsig cs o = Ok ls -> option_map fst ls = cfg_fn cs o.
+Proof.
+  destruct o as [fc|]; cbn [resolve_lsig cfg_fn]; intros H; [|inversion H; reflexivity].
+  destruct (lookup_fn cs fc) as [f|x]; [|discriminate]. cbn [rbind] in H.
+  destruct (String.eqb (c_contract_type (snd f)) "LogicSig"); [|discriminate]. inversion H. reflexivity.
+Qed.
+
+Lemma entry_obj_view cs ids e o rel :
+  entry_obj cs e = Ok o ->
+  view_with ids (set_o_relative_indexes rel (set_o_group_transaction true o)) =
+  mkTxn (ct_txn_id e) (cfg_type e) (cfg_has_logic_sig e) (cfg_fn cs (ct_logic_sig e)) (cfg_fn cs (ct_application e))
+        (option_map Z.to_N (ct_absolute_index e)) (map (phi ids) rel) /\
+  o_relative_indexes o = [] /\ o_absoulte_index o = ct_absolute_index e /\ o_transacton_id o = ct_txn_id e.
+Proof.
+  unfold entry_obj, cfg_type. intros H.
+  destruct (sdict_get (ct_txn_type e) USER_CONFIG_TRANSACTION_TYPES) as [ty|x]; [|discriminate]. cbn [rbind] in H.
+  destruct (resolve_app cs (ct_application e)) as [app|x] eqn:Ea; [|discriminate]. cbn [rbind] in H.
+  destruct (resolve_lsig cs (ct_logic_sig e)) as [ls|x] eqn:El; [|discriminate]. cbn [rbind] in H.
+  inversion H. unfold view_with.
+  cbn [set_o_relative_indexes set_o_group_transaction o_absoulte_index o_relative_indexes o_type o_has_logic_sig o_logic_sig o_application o_group_transaction o_transacton_id].
+  rewrite (resolve_app_fn _ _ _ Ea), (resolve_lsig_fn _ _ _ El). repeat split; reflexivity.
+Qed.
+
+Lemma phase1_objs cs : forall es seen os, phase1 cs es seen = Ok os -> Forall2 (fun e o => entry_obj cs e = Ok o) es os.
+Proof.
+  induction es as [|e es IH]; intros seen os H; cbn [phase1] in H.
+  - inversion H. constructor.
+  - destruct (rbind_ok_inv _ _ _ H) as (o & Ho & H1). destruct (smem (ct_txn_id e) seen); [discriminate|].
+    destruct (rbind_ok_inv _ _ _ H1) as (os' & H2 & H3). inversion H3. constructor; [exact Ho | exact (IH _ _ H2)].
+Qed.
+
+Definition abs_pairs (i : nat) (es : list GroupConfigTransaction) : list (Z * nat) :=
+  flat_map (fun p => match ct_absolute_index (fst p) with Some a => [(a, snd p)] | None => [] end) (combine es (seq i (length es))).
+
+Lemma zdict_set_new {V} k (v : V) d : zdict_mem k d = false -> zdict_set k v d = d ++ [(k, v)].
+Proof.
+  intros H. unfold zdict_set. apply dict_set_new. intros kv Hkv.
+  unfold zdict_mem in H. destruct (Z.eqb (fst kv) k) eqn:E; [|reflexivity].
+  assert (X : existsb (fun kv0 : Z * V => Z.eqb (fst kv0) k) d = true) by (apply existsb_exists; exists kv; split; assumption).
+  rewrite X in H. discriminate.
+Qed.
+
+Lemma phase2_view cs all : forall es todo i g os' g',
+  phase2 (id_table all) i es todo g = Ok (os', g') ->
+  Forall2 (fun e o => entry_obj cs e = Ok o) es todo ->
+  map (view_with (map ct_txn_id all)) os' = map (cfg_gtxn cs) es /\
+  map o_transacton_id os' = map ct_txn_id es /\
+  Forall (fun o => o_group_transaction o = true) os' /\
+  gr_transactions g' = gr_transactions g /\ gr_operation_name g' = gr_operation_name g /\
+  gr_group_relative_indexes g' = gr_group_relative_indexes g /\
+  gr_absolute_indexes g' = gr_absolute_indexes g ++ abs_pairs i es.
+Proof.
+  induction es as [|e es IH]; intros todo i g os' g' H HF.
+  - inversion HF; subst. cbn [phase2] in H. inversion H; subst. cbn [map abs_pairs length seq combine flat_map]. rewrite app_nil_r.
+    repeat split; try reflexivity. constructor.
+  - inversion HF as [|e0 o es0 todo' Ho HF']; subst. cbn [phase2] in H.
+    destruct (entry_obj_view cs (map ct_txn_id all) e o [] Ho) as (_ & Hr & Ha & Hi).
+    rewrite Hr, Ha in H.
+    destruct (rbind_ok_inv _ _ _ H) as (rel & Hrel & H1). destruct (rbind_ok_inv _ _ _ H1) as (g1 & Hg1 & H2).
+    destruct (rbind_ok_inv _ _ _ H2) as ([os1 g2] & H3 & H4). cbn [fst snd] in H4. inversion H4; subst os' g'.
+    destruct (IH _ _ _ _ _ H3 HF') as (V & I & G & T & O & R & A).
+    destruct (entry_obj_view cs (map ct_txn_id all) e o rel Ho) as (Hv & _).
+    cbn [map]. rewrite Hv, V, I. unfold cfg_gtxn at 2, normalize. cbn [raw_gtxn g_id g_type g_has_logic_sig g_logic_sig g_application g_abs].
+    rewrite (rel_of_view all e rel Hrel). rewrite (rel_dict_raw nil cs).
+    assert (Hg : gr_transactions g1 = gr_transactions g /\ gr_operation_name g1 = gr_operation_name g /\
+                 gr_group_relative_indexes g1 = gr_group_relative_indexes g /\
+                 gr_absolute_indexes g1 = gr_absolute_indexes g ++ match ct_absolute_index e with Some a => [(a, i)] | None => [] end).
+    { unfold abs_step in Hg1. destruct (ct_absolute_index e) as [a|].
+      - destruct (zdict_mem a (gr_absolute_indexes g)) eqn:Em; [discriminate|]. inversion Hg1. cbn. rewrite (zdict_set_new _ _ _ Em). repeat split; reflexivity.
+      - inversion Hg1. rewrite app_nil_r. repeat split; reflexivity. }
+    destruct Hg as (T1 & O1 & R1 & A1).
+    split; [reflexivity|]. split; [cbn; rewrite Hi; reflexivity|]. split; [constructor; [reflexivity | exact G]|].
+    split. { rewrite T; exact T1. } split. { rewrite O; exact O1. } split. { rewrite R; exact R1. }
+    rewrite A, A1, <- app_assoc. reflexivity.
+Qed.
+
+Lemma map_nth_seq {A B} (f : A -> B) (d : A) l : map (fun i => f (nth i l d)) (seq 0 (length l)) = map f l.
+Proof.
+  induction l as [|a l IH]; [reflexivity|]. cbn [length seq map nth]. f_equal.
+  rewrite <- seq_shift, map_map. exact IH.
+Qed.
+
+Lemma view_txn_with heap i : view_txn heap i = view_with (map o_transacton_id heap) (nth i heap tobj_dangling).
+Proof.
+  unfold view_txn, view_with, hread. f_equal. apply map_ext. intros kv. unfold phi. f_equal.
+  change "" with (o_transacton_id tobj_dangling). rewrite map_nth. reflexivity.
+Qed.
+
+(* ---- the main statement about a successful construction *)
+Theorem init_group_ok_view cs grp heap g :
+  init_group_gen cs grp = Ok (heap, g) ->
+  let es := cg_transactions grp in
+  view_group heap g = map (cfg_gtxn cs) es /\
+  NoDup (map ct_txn_id es) /\
+  gr_transactions g = seq 0 (length es) /\ length heap = length es /\
+  gr_operation_name g = cg_operation grp /\
+  gr_absolute_indexes g = abs_pairs 0 es /\
+  Forall (fun o => o_group_transaction o = true) heap /\
+  attr_group_relative_indexes (view_group heap g) = Some (gr_group_relative_indexes g).
+Proof.
+  rewrite init_group_gen_spec. unfold init_group_spec. intros H. cbv zeta. set (es := cg_transactions grp) in *.
+  destruct (rbind_ok_inv _ _ _ H) as (os & H1 & H2). destruct (rbind_ok_inv _ _ _ H2) as ([os' g1] & H3 & H4).
+  cbn [fst snd] in H4. destruct (rbind_ok_inv _ _ _ H4) as (g2 & H5 & H6). inversion H6; subst heap g.
+  destruct (phase2_view cs es es os 0 (group0 grp) os' g1 H3 (phase1_objs _ _ _ _ H1)) as (V & I & G & T & O & R & A).
+  cbn [group0 gr_transactions gr_operation_name gr_group_relative_indexes gr_absolute_indexes app] in T, O, R, A.
+  unfold call_fill_group_relative_indexes in H5. rewrite R in H5.
+  destruct (fill_group_relative_indexes_gen (view_group os' g1) []) as [d|] eqn:Ef; [|discriminate]. cbn [of_py rbind] in H5.
+  inversion H5; subst g2.
+  assert (Hl : length os' = length es) by (rewrite <- (map_length o_transacton_id os'), I, map_length; reflexivity).
+  assert (Hv : view_group os' g1 = map (cfg_gtxn cs) es).
+  { unfold view_group. rewrite T. fold es. rewrite <- Hl.
+    rewrite (map_ext _ (fun i => view_with (map o_transacton_id os') (nth i os' tobj_dangling)) (view_txn_with os')).
+    rewrite map_nth_seq, I. exact V. }
+  assert (Hv2 : view_group os' (set_gr_group_relative_indexes d g1) = view_group os' g1) by reflexivity.
+  rewrite Hv2, Hv. split; [reflexivity|]. split; [exact (proj1 (phase1_nodup _ _ _ _ H1))|].
+  split; [exact T|]. split; [exact Hl|]. split; [exact O|]. split; [exact A|]. split; [exact G|].
+  unfold attr_group_relative_indexes. rewrite <- Hv. rewrite Ef. reflexivity.
+Qed.
+Print Assumptions init_group_ok_view.
